@@ -475,6 +475,54 @@ def check_seal_point(ctx, F):
         ctx.ok('R10', role2, seal.defpath, '%d carried path(s): chosen iff lower >= %s = 2^S - A' % (n_carry, want.show()), key=key2)
 
 
+def check_raw_parts_identity(ctx, F):
+    """`from_raw_parts(into_raw_parts())` is the identity: a coder taken apart in the middle of a message and put together
+    again goes on exactly where it was - in particular with the words it holds back for a pending carry.  Structurally:
+    into_raw_parts returns the fields unchanged, and every accepting path of from_raw_parts stores each argument unchanged in
+    a field (it may refuse, it may not "repair")."""
+    n = 0
+    for b in F.bodies:
+        if b.promoted is not None or b.name not in ('from_raw_parts', 'into_raw_parts') or not (b.self_adt or '').startswith('stream::') or '::tests::' in b.defpath or b.vis != 'pub':
+            continue
+        n += 1
+        ctx.touch(b)
+        ev, paths = rules.evaluate(b)
+        key = 'R4/raw-parts-identity/' + b.defpath
+        role = 'raw parts pass through unchanged'
+        bad = unk = None
+        for r in paths or []:
+            if r.end != 'return' or r.ret is None:
+                continue
+            t = r.ret
+            if rules.ret_shape(t)[0] == 'Err':
+                continue
+            if rules.ret_shape(t)[0] == 'Ok':
+                t = t[2][0]
+            if not (isinstance(t, tuple) and t and t[0] == 'agg'):
+                unk = 'the result is not a literal (%s)' % sym.show(t)[:60]
+                continue
+            if b.name == 'from_raw_parts':
+                args = {('arg', i) for i in range(1, b.arg_count + 1)}
+                vals = [v for v in t[2] if not (isinstance(v, tuple) and v and v[0] == 'agg' and isinstance(v[1], tuple) and 'PhantomData' in str(v[1]))]
+                odd = [v for v in vals if v not in args]
+                if odd:
+                    bad = 'a field of the reassembled coder is %s, not the argument as it was handed in: a coder that is taken apart and put together again (e.g. while words are held back) does not continue where it was' % sym.show(odd[0])[:90]
+                elif len(set(vals)) != len(vals) or set(vals) != args:
+                    bad = 'not every argument ends up in a field of its own'
+            else:
+                odd = [v for v in t[2] if not (isinstance(v, tuple) and v and v[0] == 'in' and v[1][0] == 1 and len(v[1]) == 2)]
+                if odd:
+                    bad = 'a returned part is %s, not a field as it is' % sym.show(odd[0])[:90]
+        if bad:
+            ctx.bad('R4', role, b.defpath, bad, key=key, loc=rules.loc(b))
+        elif unk:
+            ctx.unresolved('R4', role, b.defpath, unk, key=key)
+        else:
+            ctx.ok('R4', role, b.defpath, 'fields and parts correspond one to one, unchanged', key=key)
+    if n < 4:
+        ctx.unresolved('R4', 'raw parts pass through unchanged', 'stream', 'only %d from/into_raw_parts functions found' % n, key='R4/floor/raw-parts')
+
+
 def check_sealing_conversions(ctx, F):
     """Every `From<RangeEncoder<..>>` conversion hands out the words of a *sealed* stream: it reaches seal() through the
     call graph (via into_compressed / into_decoder), never the raw parts."""
@@ -519,6 +567,7 @@ def run(ctx):
     check_reset(ctx, F)
     check_wrapping_distance(ctx, F)
     check_sealing_conversions(ctx, F)
+    check_raw_parts_identity(ctx, F)
     c18.check_sentinels(ctx, F)
     check_flush_siblings(ctx, F)
     c08.check_encoder_guard(ctx, F)
